@@ -510,7 +510,17 @@ func (g *Engine) registerIntrinsics() {
 		t := bigOf(e, a[0])
 		n := e.byteLen(t)
 		e.workAlloc = e.tb.Bin(OpAdd, e.workAlloc, n)
-		return e.newBytes(e.bytesFromWord(t, 32), e.tb.Bin(OpSub, e.tb.BVu(32, 64), n), n, 32, "big.Bytes")
+		s := e.newBytes(e.bytesFromWord(t, 32), e.tb.Bin(OpSub, e.tb.BVu(32, 64), n), n, 32, "big.Bytes")
+		s.minrep = t
+		return s
+	}
+	I["(*"+u256+".Int).Bytes"] = func(e *Exec, fn *ssa.Function, a []Value) Value {
+		t := e.u256Load(a[0])
+		n := e.byteLen(t)
+		e.workAlloc = e.tb.Bin(OpAdd, e.workAlloc, e.tb.BVu(32, 64))
+		s := e.newBytes(e.bytesFromWord(t, 32), e.tb.Bin(OpSub, e.tb.BVu(32, 64), n), n, 32, "u256.Bytes")
+		s.minrep = t
+		return s
 	}
 	I["(*math/big.Int).SetBytes"] = func(e *Exec, fn *ssa.Function, a []Value) Value {
 		arr, off, n, _, _ := e.bytesOf(a[1])
@@ -525,7 +535,21 @@ func (g *Engine) registerIntrinsics() {
 		e.store(a[0].(Ptr), BigV{t})
 		return a[0]
 	}
-	I["(*math/big.Int).String"] = func(e *Exec, fn *ssa.Function, a []Value) Value { return e.freshStr("bigstr", 8) }
+	I[gethCommon+".BigToHash"] = func(e *Exec, fn *ssa.Function, a []Value) Value {
+		return BArr{e.bytesFromWord(bigOf(e, a[0]), 32), 32}
+	}
+	I[gethCommon+".BigToAddress"] = func(e *Exec, fn *ssa.Function, a []Value) Value {
+		return BArr{e.bytesFromWord(e.tb.Extract(bigOf(e, a[0]), 159, 0), 20), 20}
+	}
+	I["("+gethCommon+".Hash).Big"] = func(e *Exec, fn *ssa.Function, a []Value) Value {
+		h := a[0].(BArr)
+		return Ptr{obj: e.newObj(BigV{e.wordFromBytes(h.t, e.tb.BVu(0, 64), 32)}, nil, "big")}
+	}
+	I["("+gethCommon+".Address).Big"] = func(e *Exec, fn *ssa.Function, a []Value) Value {
+		h := a[0].(BArr)
+		return Ptr{obj: e.newObj(BigV{e.tb.ZExt(e.wordFromBytes(h.t, e.tb.BVu(0, 64), 20), 256)}, nil, "big")}
+	}
+	I["(*math/big.Int).String"] =func(e *Exec, fn *ssa.Function, a []Value) Value { return e.freshStr("bigstr", 8) }
 
 	// ------------------------------------------------------------ bytes, errors, fmt, log, sync
 	I["bytes.Equal"] = func(e *Exec, fn *ssa.Function, a []Value) Value { return e.bytesEq(a[0], a[1]) }
@@ -600,13 +624,23 @@ func (g *Engine) registerIntrinsics() {
 	}
 }
 
+func minrepOf(v Value) *Term {
+	switch s := v.(type) {
+	case Slice:
+		return s.minrep
+	case Str:
+		return s.minrep
+	}
+	return nil
+}
+
 func (e *Exec) bytesEq(a, b Value) *Term {
 	aa, ao, al, am, ok1 := e.bytesOf(a)
 	ba, bo, bl, bm, ok2 := e.bytesOf(b)
 	if !ok1 || !ok2 {
 		panic(unsupported("bytes equality on non-byte slices"))
 	}
-	return e.eqStr(Str{arr: aa, off: ao, len: al, max: am}, Str{arr: ba, off: bo, len: bl, max: bm})
+	return e.eqStr(Str{arr: aa, off: ao, len: al, max: am, minrep: minrepOf(a)}, Str{arr: ba, off: bo, len: bl, max: bm, minrep: minrepOf(b)})
 }
 
 // deepSnapshot copies a value for an observation log, following pointers so
